@@ -231,6 +231,11 @@ func c11GenPlugin(r *simrt.Rand, idx int, limit time.Duration, backendFiles []st
 	case c < 40:
 		p.Kind = "healthy"
 		healthyBody()
+		if L > 0 && r.Chance(1, 2) {
+			// healthy, but it takes a good part of the time limit: the limit is per plugin run, so
+			// several such plugins in a row are all fine although together they take longer than the limit
+			sc[[]string{"delay_before_ns", "delay_mid_ns", "delay_after_ns"}[r.Intn(3)]] = L/2 + int64(r.Intn(int(L/2-L/16)))
+		}
 	case c < 47:
 		p.Kind = "healthy-stdin-ignored"
 		healthyBody()
